@@ -278,12 +278,7 @@ func Equal(a, b Node) bool {
 	}
 }
 
-func zbig(v *big.Int) string {
-	if v.Sign() < 0 {
-		return "(" + v.String() + ")"
-	}
-	return v.String()
-}
+func zbig(v *big.Int) string { return h.BigZ(v) }
 
 // CoqItem prints the node as a term of type Wire.item (Enum real tag 0, as ttlv.Value writes it).
 func CoqItem(n Node) string {
